@@ -1325,6 +1325,9 @@ class TensorDict(TensorDictBase):
 
         if filter_empty and not any_set:
             return
+        elif filter_empty is None and not any_set and not self.is_empty():
+            # same rule as _apply_nest
+            return
         elif not filter_empty and not inplace and is_locked:
             result.lock_()
         return result
